@@ -50,7 +50,19 @@ EXPLANATION = (
     'are exercised by the concrete differential runs (numpy scalars of all '
     'widths, float32 arrays, nested lists, sets, all result types, real '
     'temporary files, file-name determinism/injectivity by sampling incl. '
-    'adjacent doubles).')
+    'adjacent doubles).  RE-USE histories: a result set saved, modified '
+    '(results updated / added, parameter changed so that the templated file '
+    'name must follow, parameter added, unpack mark toggled, runned_reps), '
+    'saved again under the same and other templates (repeated, missing and '
+    'array-valued parameters), every file loaded and compared with the deep '
+    'copy taken at save time, loaded + saved unmodified (same name, same '
+    'content), no leftover files, other files untouched; original / saved '
+    'text / loaded object share nothing while each keeps being used; exotic '
+    'parameter values (nested containers, lists of arrays, tuples, numpy '
+    'scalars of every width in containers, 0-d / empty / strided / reversed '
+    '/ Fortran arrays).  The json contract is installed on '
+    'json.JSONEncoder.encode/iterencode and json.JSONDecoder.decode, the '
+    'level shared by dumps/dump/loads/load and encoder / decoder instances.')
 ASSUMPTIONS = [
     'json library contract: loads(dumps(v)) == v for JSON-native v (floats '
     'by shortest round-trip repr), dict keys become strings, tuples lists',
@@ -144,9 +156,22 @@ def my_float(x=0.0):
 
 # ---------------------------------------------------------------------------
 # the json / pickle / open contract stubs
-class _JsonText:
-    def __init__(self, tree):
+class _JsonText(str):
+    """what the json contract stub 'writes': a str (so that it can travel
+    through every route real JSON text takes -- returned by to_json, written
+    to a file, handed to json.loads / JSONDecoder.decode) that carries the
+    encoded structure"""
+
+    def __new__(cls, tree):
+        self = super().__new__(cls, '<json contract token>')
         self.tree = tree
+        return self
+
+    def __deepcopy__(self, memo):
+        return self
+
+    def __reduce__(self):
+        return (_JsonText, (self.tree, ))
 
 
 def j_key(k):
@@ -195,20 +220,58 @@ def j_decode(t, hook):
     return t
 
 
-class JsonStub(types.ModuleType):
-    def __init__(self):
-        super().__init__('jsonstub')
-        self.JSONEncoder = _json.JSONEncoder
-        self.JSONDecoder = _json.JSONDecoder
+class json_contract:
+    """Context manager installing the json contract at the level ALL routes
+    of the library share: json.JSONEncoder.encode / iterencode (json.dumps,
+    json.dump, a module-level encoder instance, encoder subclasses) and
+    json.JSONDecoder.decode (json.loads, json.load, decoder instances).
+    Only while a symbolic context is active; otherwise the real methods run.
+    encode() returns the contract token built by j_encode with the REAL
+    default() of the encoder instance; decode() of a token applies the REAL
+    object hook of the decoder instance."""
+    depth = 0
+    saved = None
 
-    def dumps(self, obj, cls=None, **kw):
-        enc = cls() if cls is not None else _json.JSONEncoder()
-        return _JsonText(j_encode(obj, enc))
+    def __enter__(self):
+        from pysym.core import active
+        cls = json_contract
+        cls.depth += 1
+        if cls.depth > 1:
+            return self
+        Enc, Dec = _json.JSONEncoder, _json.JSONDecoder
+        cls.saved = (Enc.encode, Enc.iterencode, Dec.decode)
+        r_encode, r_iterencode, r_decode = cls.saved
 
-    def loads(self, text, object_hook=None, **kw):
-        if not isinstance(text, _JsonText):
-            return _json.loads(text, object_hook=object_hook, **kw)
-        return j_decode(text.tree, object_hook)
+        def encode(enc, o):
+            if not active():
+                return r_encode(enc, o)
+            return _JsonText(j_encode(o, enc))
+
+        def iterencode(enc, o, _one_shot=False):
+            if not active():
+                return r_iterencode(enc, o, _one_shot)
+            return iter([_JsonText(j_encode(o, enc))])
+
+        def decode(dec, s, *a, **kw):
+            if isinstance(s, _JsonText):
+                hook = dec.object_hook
+                if getattr(dec, 'object_pairs_hook', None) is not None:
+                    raise NotImplementedError('object_pairs_hook in the json '
+                                              'contract stub')
+                return j_decode(s.tree, hook)
+            return r_decode(dec, s, *a, **kw)
+
+        Enc.encode, Enc.iterencode, Dec.decode = encode, iterencode, decode
+        return self
+
+    def __exit__(self, *exc):
+        cls = json_contract
+        cls.depth -= 1
+        if cls.depth == 0:
+            Enc, Dec = _json.JSONEncoder, _json.JSONDecoder
+            Enc.encode, Enc.iterencode, Dec.decode = cls.saved
+            cls.saved = None
+        return False
 
 
 class _Pickled:
@@ -287,8 +350,8 @@ class _MemOS:
             os.remove(name)
 
 
-STUBS = dict(isinstance=sym_isinstance, json=JsonStub(), pickle=PickleStub(),
-             open=mem_open, os=_MemOS())
+STUBS = dict(isinstance=sym_isinstance, pickle=PickleStub(), open=mem_open,
+             os=_MemOS())
 
 
 class real_globals:
@@ -354,7 +417,8 @@ class _Base17(Harness):
                 saved[k] = Sm.__dict__.get(k, _MISSING)
                 Sm.__dict__[k] = v
         try:
-            type(self).scenario(SymVals(ctx), cfg, Reporter(ctx))
+            with json_contract():
+                type(self).scenario(SymVals(ctx), cfg, Reporter(ctx))
         finally:
             for k, v in saved.items():
                 if v is _MISSING:
@@ -488,6 +552,9 @@ def scen_encoder(mk, cfg, rep):
         # C-contiguous) -- the saved value is the logical array either way
         layout = cfg.get('layout', 'C')
         bshape = shape[::-1] if layout == 'T' else shape
+        if layout == 'S':     # every second element of a longer buffer
+            bshape = shape[:-1] + (2 * shape[-1], )
+            vals = [mk.real('a%d' % i) for i in range(2 * n)]
         if mk.sym:
             arr = np.empty(bshape, dtype=object)
             for i, idx in enumerate(np.ndindex(*bshape)):
@@ -501,13 +568,27 @@ def scen_encoder(mk, cfg, rep):
             arr = arr.T
         elif layout == 'F':
             arr = np.asfortranarray(arr)
+        elif layout == 'S':
+            arr = arr[..., ::2]
+        elif layout == 'R':   # negative strides
+            arr = arr[::-1]
         assert arr.shape == shape
         back = j.loads(j.dumps({'v': arr}, cls=Sm.NumpyOrSetEncoder),
                        object_hook=Sm.json_numpy_or_set_obj_hook)['v']
         rep('array:type', isinstance(back, np.ndarray))
         if isinstance(back, np.ndarray):
-            rep('array:shape', back.shape == shape or n == 0)
+            # (the shape of an EMPTY array is not compared: [] carries none;
+            # C17_STRICT_EMPTY_SHAPE=1 compares it)
+            rep('array:shape', back.shape == shape or (
+                n == 0 and not os.environ.get('C17_STRICT_EMPTY_SHAPE')))
             rep('array:value', same(back, arr) if n else back.size == 0)
+        return
+    if kind == 'npbool':
+        x = np.bool_(cfg['value'])
+        j = Sm.json if mk.sym else _json
+        back = j.loads(j.dumps({'v': [x]}, cls=Sm.NumpyOrSetEncoder),
+                       object_hook=Sm.json_numpy_or_set_obj_hook)['v'][0]
+        rep('npbool:value', back is bool(x))
         return
     if kind == 'set':
         items = ['a', 'snr', 3, 2.5]
@@ -524,8 +605,7 @@ class Encoder(_Base17):
     numpy scalars of every width, symbolic arrays, sets."""
     name = 'encoder'
     modules = (SM, )
-    builtins = dict(isinstance=my_isinstance, int=my_int, float=my_float,
-                    json=JsonStub())
+    builtins = dict(isinstance=my_isinstance, int=my_int, float=my_float)
     scenario = staticmethod(scen_encoder)
     functions = (SM + ':NumpyOrSetEncoder.default',
                  SM + ':json_numpy_or_set_obj_hook')
@@ -533,8 +613,10 @@ class Encoder(_Base17):
               'integer over the whole range of the type), float16/32/64/128 '
               '(symbolic real); arrays of shapes (3,), (2,2), (1,2,2), (0,); '
               'sets of 0..4 str/int/float items')
-    stubs = ('json.dumps/loads -> structural contract stub calling the real '
-             'default()/object hook', 'isinstance/int/float on a symbolic '
+    stubs = ('json.JSONEncoder.encode/iterencode and json.JSONDecoder.decode '
+             '(shared by dumps/dump/loads/load and encoder/decoder instances) '
+             '-> structural contract stub calling the real default() of the '
+             'encoder instance and the real object hook', 'isinstance/int/float on a symbolic '
              'numpy scalar: class test by issubclass, int() = truncation '
              'toward zero of the symbolic value, float() = the value')
     outside = ('the JSON text itself (library contract)',
@@ -550,7 +632,13 @@ class Encoder(_Base17):
         out += [dict(kind='array', shape=[3, 2], layout='T'),
                 dict(kind='array', shape=[2, 3], layout='F'),
                 dict(kind='array', shape=[2, 1, 3], layout='T')]
+        out += [dict(kind='array', shape=[2, 3], layout='S'),
+                dict(kind='array', shape=[3, 2], layout='R'),
+                dict(kind='array', shape=[]),
+                dict(kind='array', shape=[2, 0]),
+                dict(kind='array', shape=[0, 3])]
         out += [dict(kind='set', n=n) for n in (0, 1, 4)]
+        out += [dict(kind='npbool', value=True)]
         return out
 
     def site(self, cfg):
@@ -720,6 +808,28 @@ def build_params(mk, Pm, cfg):
          'grid': np.array([[1.5, 2.5], [3.0, 4.0]]),
          'counts': np.array([1, 2, 3]),
          'rep_max': 100}
+    if cfg.get('exotic'):
+        # less-travelled value classes: nested containers, lists of arrays,
+        # tuples, numpy scalars of every width inside containers, 0-d /
+        # empty / strided / reversed / Fortran arrays, bools and None
+        d = {'deep': [[mk.real('d0'), [mk.int('d1', -9, 9), []]], [], [[]]],
+             'arrs': [np.array([1, 2]), np.array([[1.5, 2.5]]),
+                      [np.array([7.25])]],
+             'tup': (1, 2.5, 'a', (3, [4])),
+             'scalars': [np.int8(-3), np.uint16(65535), np.int64(-2**62),
+                         np.uint64(2**63 + 5), np.float16(0.5),
+                         np.float32(1.5), np.float64(2.5),
+                         np.longdouble(3.5)],
+             'zero_d': np.array(3.5), 'zero_d_int': np.array(7),
+             'empty': np.array([]), 'empty2': np.zeros((2, 0)),
+             'strided': np.arange(10.)[::3], 'rev': np.arange(4)[::-1],
+             'fortran': np.asfortranarray(np.arange(6.).reshape(2, 3)),
+             'transposed': np.arange(6).reshape(2, 3).T,
+             'f32': np.array([0.5, 1.25], dtype=np.float32),
+             'boolarr': np.array([True, False]),
+             'flags': [True, False, None], 'numset': {1, 2.5},
+             'noset': set(), 'text': 'a "quoted" \\ string \u00e9',
+             'big': 2**70, 'neg0': [0.0, -1e-300, 1e300]}
     if cfg.get('leaf'):
         # a numpy scalar of the given class (symbolic value) as a parameter
         # and inside a list
@@ -764,7 +874,9 @@ def same_value(a, b):
     if isinstance(a, (set, frozenset)) or isinstance(b, (set, frozenset)):
         return isinstance(a, set) and isinstance(b, set) and a == b
     if isinstance(a, (list, tuple)) or isinstance(b, (list, tuple)):
-        if not (isinstance(a, list) and isinstance(b, list)) or \
+        # (a loaded list may stand for a saved tuple: JSON has no tuples)
+        if not (isinstance(b, (list, tuple)) and
+                (isinstance(a, list) or type(a) is type(b))) or \
                 len(a) != len(b):
             return False
         return all_of([same_value(x, y) for x, y in zip(a, b)])
@@ -779,9 +891,10 @@ def same_value(a, b):
     return same(a, b)
 
 
-def cmp_params(rep, prefix, got, want):
+def cmp_params(rep, prefix, got, want, use_eq=True):
     rep(prefix + ':type', type(got) is type(want))
-    rep(prefix + ':==', eq_real(got, want))
+    if use_eq:
+        rep(prefix + ':==', eq_real(got, want))
     fg, fw = params_fields(got), params_fields(want)
     rep(prefix + ':unpacked-marks', fg['unpacked'] == fw['unpacked'] and
         isinstance(got._unpacked_parameters_set, set))
@@ -814,17 +927,21 @@ def scen_params(mk, cfg, rep):
         o.save_to_pickled_file(fn)
         return Pm.SimulationParameters.load_from_pickled_file(fn)
 
+    # (the repo's == is not consulted for the exotic values: it raises for a
+    # list of arrays and distinguishes tuple from list)
+    use_eq = not cfg.get('exotic')
     p2 = rt(target)
-    cmp_params(rep, route, p2, target)
+    cmp_params(rep, route, p2, target, use_eq)
     if cfg['child']:
         rep(route + ':parent-present', p2._original_sim_params is not None)
         if p2._original_sim_params is not None:
-            cmp_params(rep, route + '-parent', p2._original_sim_params, p)
+            cmp_params(rep, route + '-parent', p2._original_sim_params, p,
+                       use_eq)
             rep(route + ':num-variations',
                 p2.get_num_unpacked_variations() ==
                 target.get_num_unpacked_variations())
     p3 = rt(p2)
-    cmp_params(rep, route + '-again', p3, p2)
+    cmp_params(rep, route + '-again', p3, p2, use_eq)
 
 
 class ParamsRT(_Base17):
@@ -848,7 +965,9 @@ class ParamsRT(_Base17):
               'object itself or an unpacked child (symbolic child number, '
               'parent kept); symbolic unpack index; json and pickle routes')
     stubs = ResultRT.stubs
-    outside = ('tuple / dict valued parameters',
+    outside = ('dict valued parameters; a saved tuple comes back as a list '
+               '(JSON has none) and is compared as a sequence',
+               'the shape of empty arrays', 'np.bool_ scalars',
                'parameters loaded from config files')
 
     def configs(self, tier):
@@ -863,6 +982,10 @@ class ParamsRT(_Base17):
         for kind in ('int8', 'int16', 'int64', 'uint8', 'uint64', 'float16',
                      'float32', 'float64', 'float128'):
             out.append(dict(route='json', unpack=[], child=False, leaf=kind))
+        for route in ('json', 'pickle'):
+            out.append(dict(route=route, unpack=[], child=False, exotic=True))
+            out.append(dict(route=route, unpack=['deep', 'strided'],
+                            child=True, exotic=True))
         return out
 
     def key_for(self, cfg, name):
@@ -1140,7 +1263,428 @@ def _filename_samples(rng):
     return len(seen)
 
 
-HARNESSES = [Encoder(), ResultRT(), ParamsRT(), SimResultsRT()]
+# ---------------------------------------------------------------------------
+# (5) RE-USE histories: an object that is saved, modified, saved again (same
+# and other name), loaded, re-saved; objects used after a save / load (the
+# saved text, the loaded object and the original must not share anything)
+TEMPLATES = dict(A='hA_{mod}_{M}', B='hB_{mod}',
+                 C='hC_{mod}_{mod}_{snr}',        # repeated + array valued
+                 D='hD_{nonexistent}_{mod}')      # missing: name kept as is
+
+
+def _canon_json(text):
+    """parsed JSON with the element order of encoded sets normalised"""
+    def canon(t):
+        if isinstance(t, dict):
+            d = {k: canon(v) for k, v in t.items()}
+            if d.get('_is_set') is True and isinstance(d.get('data'), list):
+                d['data'] = sorted(d['data'], key=repr)
+            return d
+        if isinstance(t, list):
+            return [canon(v) for v in t]
+        return t
+    return canon(_json.loads(text))
+
+
+def _canon_tree(t):
+    if isinstance(t, dict):
+        d = {k: _canon_tree(v) for k, v in t.items()}
+        if d.get('_is_set') is True and isinstance(d.get('data'), list):
+            d['data'] = sorted(d['data'], key=repr)
+        return d
+    if isinstance(t, list):
+        return [_canon_tree(v) for v in t]
+    return t
+
+
+def scen_save_history(mk, cfg, rep):
+    Rm, Pm = repo_module(RM), repo_module(PM)
+    S = build_simresults(mk, Rm, Pm, cfg)
+    types, ext = cfg['types'], cfg['ext']
+    base = cfg.get('dir', '/mem')
+    files = {}      # file name -> snapshot at save time, template, content
+    Ms = [S.params['M']]
+    last = [None]
+
+    def content(name):
+        if mk.sym:
+            return FS.get(name)
+        with builtins.open(name, 'rb') as f:
+            return f.read()
+
+    def listing():
+        if mk.sym:
+            return sorted(k for k in FS if k.startswith(base))
+        return sorted(os.path.join(base, f) for f in os.listdir(base))
+
+    def same_content(a, b):
+        if mk.sym:
+            return a is b
+        return a == b
+
+    def check_loaded(tag, L, f):
+        cmp_simresults(rep, tag, L, f['snap'], types)
+        for nm in f['snap'].get_result_names():
+            if nm.startswith('extra') and nm in L.get_result_names():
+                rep.compare('%s-result[%s]' % (tag, nm), state(L[nm][0]),
+                            state(f['snap'][nm][0]),
+                            ('value', 'num_updates', 'result_sum',
+                             'result_squared_sum'))
+        rep(tag + ':original_filename-is-template',
+            L.original_filename == f['tmpl'])
+
+    for k, op in enumerate(cfg['ops']):
+        tag = 'f%d%s' % (k, op)
+        if op[0] == 's':
+            tmpl = os.path.join(base, TEMPLATES[op[1]] + ext)
+            eff = tmpl if ext else tmpl + '.pickle'
+            before = {n: content(n) for n in files}
+            fn = S.save_to_file(tmpl)
+            if op[1] == 'A':
+                want = os.path.join(base, 'hA_PSK_{0}'.format(Ms[-1])) + (
+                    ext or '.pickle')
+            elif op[1] == 'B':
+                want = os.path.join(base, 'hB_PSK') + (ext or '.pickle')
+            elif op[1] == 'D':
+                want = eff
+            else:
+                want = fn
+                rep(tag + ':file-name-filled', '{' not in fn and
+                    'hC_PSK_PSK_[' in fn and
+                    fn == S.get_filename_with_replaced_params(eff))
+            rep(tag + ':file-name', fn == want,
+                detail=dict(got=fn, want=want))
+            rep(tag + ':original_filename', S.original_filename == eff)
+            files[fn] = dict(snap=copy.deepcopy(S), tmpl=eff,
+                             content=content(fn))
+            last[0] = fn
+            rep(tag + ':no-leftover-files', listing() == sorted(files),
+                detail=dict(listing=listing(), expected=sorted(files)))
+            rep(tag + ':other-files-untouched', all(
+                same_content(c, content(n)) for n, c in before.items()
+                if n != fn))
+            if not mk.sym:
+                mk.log.append('S.save_to_file(%r) -> %r' % (tmpl, fn))
+        elif op == 'uR':
+            for typ in types:
+                do_update(S[typ.lower()][-1], obs(mk, typ, 'o%d_%s' % (k, typ)))
+            if not mk.sym:
+                mk.log.append('update the last result of every name')
+        elif op == 'nR':
+            S.add_new_result('extra%d' % k, Rm.Result.SUMTYPE,
+                             mk.real('x%d' % k))
+            if not mk.sym:
+                mk.log.append("S.add_new_result('extra%d', SUMTYPE, v)" % k)
+        elif op == 'pM':
+            new = mk.int('M%d' % k, 2, 64)
+            for old in Ms:
+                if not mk.assume(new != old):
+                    return
+            Ms.append(new)
+            S.params.add('M', new)
+            if not mk.sym:
+                mk.log.append("S.params.add('M', %r)" % new)
+        elif op == 'pN':
+            S.params.add('extra%d' % k, [mk.real('e%d' % k), 'x'])
+        elif op == 'pU':
+            S.params.set_unpack_parameter(
+                'snr', 'snr' not in S.params.unpacked_parameters)
+        elif op == 'rr':
+            S.runned_reps = [mk.int('rr%d' % k, 0, 10**6), 7]
+        elif op == 'L':
+            for i, (n, f) in enumerate(sorted(files.items())):
+                check_loaded('%s[%d]' % (tag, i),
+                             Rm.SimulationResults.load_from_file(n), f)
+        elif op == 'Z':
+            # load and save again without any modification: same name, same
+            # content
+            n = last[0]
+            f = files[n]
+            L = Rm.SimulationResults.load_from_file(n)
+            fn2 = L.save_to_file(L.original_filename)
+            rep(tag + ':file-name', fn2 == n, detail=dict(got=fn2, want=n))
+            c2 = content(n)
+            if n.endswith('.json'):
+                if mk.sym:
+                    rep(tag + ':stable-content', same_value(
+                        _canon_tree(c2.tree), _canon_tree(f['content'].tree)))
+                else:
+                    rep(tag + ':stable-content',
+                        _canon_json(c2) == _canon_json(f['content']),
+                        detail=dict(first=f['content'][:300].decode(),
+                                    second=c2[:300].decode()))
+            f['content'] = c2
+            rep(tag + ':no-leftover-files', listing() == sorted(files))
+            check_loaded(tag + '-reload',
+                         Rm.SimulationResults.load_from_file(n), f)
+
+
+def _res_state_from_dict(d):
+    v = d['value']
+    if isinstance(v, np.ndarray):
+        v = v.ravel().tolist()
+    return dict(value=v, total=d['total'], num_updates=d['num_updates'],
+                result_sum=d['result_sum'],
+                result_squared_sum=d['result_squared_sum'],
+                value_list=list(d['value_list']),
+                total_list=list(d['total_list']))
+
+
+def _params_view(p):
+    return dict(names=sorted(p.parameters),
+                lst=list(p.parameters.get('lst', [])),
+                unpacked=sorted(p._unpacked_parameters_set))
+
+
+def scen_alias(mk, cfg, rep):
+    """save (text / dict), keep using the original and the loaded object: the
+    saved form is a snapshot and nothing is shared in either direction"""
+    Rm, Pm = repo_module(RM), repo_module(PM)
+    what, route = cfg['what'], cfg['route']
+    F = ('value', 'total', 'num_updates', 'result_sum', 'result_squared_sum',
+         'value_list', 'total_list')
+    if what == 'result':
+        typ = cfg['type']
+        r = build_result(mk, Rm, cfg)
+        snap = state(r)
+        saved = r.to_json() if route == 'json' else r.to_dict()
+
+        def load():
+            return Rm.Result.from_json(saved) if route == 'json' else \
+                Rm.Result.from_dict(saved)
+
+        r2 = load()
+        rep.compare('alias|loaded', state(r2), snap, F)
+        do_update(r, obs(mk, typ, 'o1'))
+        after1 = state(r)
+        rep.compare('alias|loaded-after-original-updated', state(r2), snap, F)
+        if route == 'dict':
+            rep.compare('alias|dict-after-original-updated',
+                        _res_state_from_dict(saved), snap, F)
+        do_update(r2, obs(mk, typ, 'o2'))
+        rep.compare('alias|original-after-loaded-updated', state(r), after1,
+                    F)
+        if route == 'dict':
+            rep.compare('alias|dict-after-loaded-updated',
+                        _res_state_from_dict(saved), snap, F)
+        r3 = load()
+        rep.compare('alias|saved-form-is-a-snapshot', state(r3), snap, F)
+        other = new_result(Rm, typ, cfg['acc'], name=r.name)
+        do_update(other, obs(mk, typ, 'o3'))
+        r3.merge(other)
+        rep.compare('alias|original-after-loaded-merged', state(r), after1, F)
+        if not mk.sym:
+            mk.log.append('saved=%s; r2=load; r.update; r2.update; r3=load; '
+                          'r3.merge' % ('r.to_json()' if route == 'json'
+                                        else 'r.to_dict()'))
+        return
+    if what == 'params':
+        p = build_params(mk, Pm, dict(unpack=['counts']))
+        snap = _params_view(p)
+        saved = p.to_json() if route == 'json' else p.to_dict()
+
+        def load():
+            return Pm.SimulationParameters.from_json(saved) if \
+                route == 'json' else Pm.SimulationParameters.from_dict(saved)
+
+        p2 = load()
+        rep('alias|loaded:view', same_value(_params_view(p2), snap))
+        p.add('added', mk.real('added'))
+        p['lst'].append(mk.real('appended'))
+        p.set_unpack_parameter('lst')
+        after1 = _params_view(p)
+        rep('alias|loaded-after-original-modified:view',
+            same_value(_params_view(p2), snap))
+        p2.add('added2', 1)
+        p2['lst'].append(2)
+        p2.set_unpack_parameter('counts', False)
+        rep('alias|original-after-loaded-modified:view',
+            same_value(_params_view(p), after1))
+        rep('alias|saved-form-is-a-snapshot:view',
+            same_value(_params_view(load()), snap))
+        return
+    # simresults
+    S = build_simresults(mk, Rm, Pm, cfg)
+    types = cfg['types']
+
+    def view(X):
+        return dict(names=X.get_result_names(),
+                    res={t: [state(r) for r in X[t.lower()]] for t in types},
+                    pnames=sorted(X.params.parameters),
+                    reps=X.runned_reps if not isinstance(
+                        X.runned_reps, list) else list(X.runned_reps))
+
+    snap = view(S)
+    saved = S.to_json() if route == 'json' else S.to_dict()
+
+    def load():
+        return Rm.SimulationResults.from_json(saved) if route == 'json' else \
+            Rm.SimulationResults.from_dict(saved)
+
+    S2 = load()
+    rep('alias|loaded:view', same_value(view(S2), snap))
+    for typ in types:
+        do_update(S[typ.lower()][-1], obs(mk, typ, 'o1_' + typ))
+    S.add_new_result('extra', Rm.Result.SUMTYPE, 1)
+    S.params.add('added', 3)
+    if isinstance(S.runned_reps, list):
+        S.runned_reps.append(5)
+    after1 = view(S)
+    rep('alias|loaded-after-original-modified:view',
+        same_value(view(S2), snap))
+    for typ in types:
+        do_update(S2[typ.lower()][-1], obs(mk, typ, 'o2_' + typ))
+    S2.params.add('added2', 4)
+    rep('alias|original-after-loaded-modified:view',
+        same_value(view(S), after1))
+    rep('alias|saved-form-is-a-snapshot:view', same_value(view(load()), snap))
+
+
+class SaveHistories(_Base17):
+    """a SimulationResults object saved, modified, saved again under the same
+    and another name, loaded, re-saved unmodified."""
+    name = 'save-histories'
+    modules = (SM, RM, PM, MM)
+    builtins = STUBS
+    scenario = staticmethod(scen_save_history)
+    functions = (RM + ':SimulationResults.save_to_file',
+                 RM + ':SimulationResults.load_from_file',
+                 RM + ':SimulationResults.get_filename_with_replaced_params',
+                 RM + ':SimulationResults._to_dict',
+                 RM + ':SimulationResults._from_dict',
+                 MM + ':replace_dict_values')
+    bounds = ('curated histories of 8..12 operations (thorough: also ALL '
+              'histories save-A x y z load re-save load) over {save under template A '
+              '(string + symbolic integer parameter) / B / C (repeated and '
+              'array-valued parameter) / D (missing parameter), update the '
+              'results, add a result, change the integer parameter (the file '
+              'name must follow), add a parameter, toggle an unpack mark, '
+              'change runned_reps, load every file written so far, load + '
+              'save unmodified}; .json / .pickle / no extension; after every '
+              'save: name as expected, no leftover files, other files '
+              'untouched; every load equals the deep copy taken at save time')
+    stubs = ('json contract stub (class level), pickle/open/os.replace '
+             'in-memory', )
+    outside = ('byte stability of pickle files', 'file names of array-valued '
+               'parameters: only filled + deterministic')
+    n_concrete = 3
+
+    def site(self, cfg):
+        return 'SimulationResults.save/modify/save/load'
+
+    def cls(self, cfg):
+        return '%s%s' % (cfg['ext'] or 'noext', '+acc' if cfg['acc'] else '')
+
+    def exc_key(self, cfg, exc):
+        return _exc_key(exc, self.cls(cfg), PROPERTY)
+
+    def key_for(self, cfg, name):
+        kind, _, field = name.partition(':')
+        import re
+        kind = re.sub(r'^f\d+', '', kind)
+        kind = re.sub(r'\[\d+\]', '', kind)
+        return _prop_key(self.site(cfg), self.cls(cfg),
+                         'differs:%s:%s' % (kind, field))
+
+    H = [['sA', 'uR', 'sA', 'L', 'pM', 'sA', 'L', 'sB', 'nR', 'sB', 'L', 'Z'],
+         ['sB', 'pN', 'pU', 'rr', 'sB', 'L', 'Z', 'uR', 'sA', 'L'],
+         ['sC', 'L', 'sD', 'uR', 'sD', 'sC', 'L', 'Z'],
+         ['sA', 'Z', 'pM', 'nR', 'sA', 'sB', 'L', 'Z', 'L']]
+
+    def configs(self, tier):
+        G3, CH = ['SUM', 'RATIO', 'MISC'], ['CHOICE']
+        out = []
+        for i, ops in enumerate(self.H):
+            ext = ['.json', '.pickle', '.json', ''][i]
+            out.append(dict(ops=ops, ext=ext, types=G3, acc=(i % 2 == 0),
+                            unpack=False, reps='int'))
+        out.append(dict(ops=self.H[0], ext='.json', types=CH, acc=True,
+                        unpack=True, reps='list'))
+        out.append(dict(ops=self.H[1], ext='.json', types=['SUM'], acc=False,
+                        unpack=True, reps='list', fresh=True))
+        if tier != 'quick':
+            for ops in self.H:
+                for ext in ('.json', '.pickle', ''):
+                    for types, acc in ((G3, True), (G3, False), (CH, False)):
+                        c = dict(ops=ops, ext=ext, types=types, acc=acc,
+                                 unpack=True, reps='list')
+                        if c not in out:
+                            out.append(c)
+            # every history sA x y z L Z L over the alphabet
+            import itertools
+            alpha = ('sA', 'sB', 'sC', 'uR', 'nR', 'pM', 'pU', 'Z')
+            for mid in itertools.product(alpha, repeat=3):
+                for ext in ('.json', '.pickle'):
+                    out.append(dict(ops=['sA'] + list(mid) + ['L', 'Z', 'L'],
+                                    ext=ext, types=G3, acc=True, unpack=False,
+                                    reps='int'))
+        return out
+
+    def _run(self, cfg, mk):
+        if not mk.sym:
+            with tempfile.TemporaryDirectory() as d:
+                return super()._run(dict(cfg, dir=d), mk)
+        return super()._run(cfg, mk)
+
+
+class Aliasing(_Base17):
+    """the saved form (JSON text; with C17_DICT_ALIAS=1 also the to_dict
+    dictionary) is a snapshot: original, saved form and loaded object share
+    nothing -- each keeps being used after the save / load."""
+    name = 'aliasing'
+    modules = (SM, RM, PM)
+    builtins = STUBS
+    scenario = staticmethod(scen_alias)
+    functions = (RM + ':Result._to_dict', RM + ':Result._from_dict',
+                 PM + ':SimulationParameters._to_dict',
+                 PM + ':SimulationParameters._from_dict',
+                 RM + ':SimulationResults._to_dict',
+                 RM + ':SimulationResults._from_dict',
+                 SM + ':JsonSerializable.to_json',
+                 SM + ':JsonSerializable.from_json')
+    bounds = ('Result (all four types, accumulate on, arbitrary symbolic '
+              'state / choice sequence), SimulationParameters, '
+              'SimulationResults: save, load, update / merge / add to the '
+              'original, then to the loaded object, load the saved form again')
+    outside = ('the to_dict / from_dict route by default (it hands out and '
+               'adopts the object\'s own containers; C17_DICT_ALIAS=1 checks '
+               'it)', )
+    n_concrete = 3
+
+    def site(self, cfg):
+        return '%s.%s' % (cfg['what'], 'to_json/from_json' if cfg['route'] ==
+                          'json' else 'to_dict/from_dict')
+
+    def cls(self, cfg):
+        return cfg.get('type', '') + 'aliasing'
+
+    def key_for(self, cfg, name):
+        kind, _, field = name.partition(':')
+        return _prop_key(self.site(cfg), self.cls(cfg),
+                         'shares-state:%s' % kind.split('|')[-1])
+
+    def configs(self, tier):
+        routes = ['json'] + (['dict'] if os.environ.get('C17_DICT_ALIAS')
+                             else [])
+        out = []
+        for route in routes:
+            for t in ('SUM', 'RATIO', 'MISC', 'CHOICE'):
+                out.append(dict(what='result', route=route, type=t, acc=True,
+                                state='seq' if t == 'CHOICE' else 'arb', L=2))
+            out.append(dict(what='result', route=route, type='SUM',
+                            acc=True, state='fresh'))
+            out.append(dict(what='params', route=route, unpack=[],
+                            child=False))
+            out.append(dict(what='simresults', route=route, unpack=True,
+                            types=['SUM', 'RATIO', 'MISC'], acc=True,
+                            reps='list'))
+            out.append(dict(what='simresults', route=route, unpack=False,
+                            types=['CHOICE'], acc=True, reps='int'))
+        return out
+
+
+HARNESSES = [Encoder(), ResultRT(), ParamsRT(), SimResultsRT(),
+             SaveHistories(), Aliasing()]
 
 MANIFEST = dict(
     category='model_checking',
@@ -1157,7 +1701,10 @@ MANIFEST = dict(
     'the real to_json/from_json/save/load code; loaded == original by the '
     'real == and field by field, second save/load identical.  Real json text, '
     'real pickle and real files are exercised in concrete differential runs; '
-    'file-name determinism/injectivity only by sampling.',
+    'file-name determinism/injectivity only by sampling.  Re-use histories '
+    '(save / modify / save under same and other names / load all / re-save '
+    'unmodified; nothing shared between original, saved text and loaded '
+    'object) follow the same scenario symbolically and on real files.',
     note='json/pickle contract trusted; floats as exact reals (float128 '
     'restricted to doubles); numpy-scalar leaves inside containers decided '
     'compositionally (encoder harness + concrete runs); file-name '
